@@ -45,7 +45,7 @@ def join_chain(e):
 from ..mir import parse_at
 
 
-def run_rules(ctx, res):
+def run_printer_rules(ctx, res):
     PR, FL, SITE, IMM = "R-C13-printer", "R-C13-flatten", "R-C13-site", "R-C13-immut"
     res.rule(PR, "the type printer has one arm per variant of the type AST and no wildcard; unit prints a literal lexing to `(` `)`; a path prints the names of all segments in order joined by a literal lexing to `::`; a generic prints callee, `<`, all arguments in order each through the printer itself joined by a literal lexing to `,`, then `>` (compared as Rust tokens)")
     res.rule(FL, "each CST list conversion converts the left part first and appends the right element at the end (no insert(0), rev, sort, loop)")
@@ -54,28 +54,31 @@ def run_rules(ctx, res):
     syn = Syn(ctx["facts"]["syn"], ctx.get("synfacts_bin"))
     pr = find_printer(syn)
     res.floor("anchor: type printer (match on Type returning String)", len(pr), 1)
-    if len(pr) == 1:
-        pfile, pfn, pm = pr[0]
+    printer_names = {x[1]["name"] for x in pr}
+    # every function that prints a type by cases is held to the printer rule (a second, laxer printer used for
+    # some positions is exactly how a nested type gets printed wrongly); keys are suffixed for all but the first
+    for pi_, (pfile, pfn, pm) in enumerate(sorted(pr, key=lambda x: (x[0], x[1]["line"]))):
+        PRK = "" if len(pr) == 1 else "%s|" % pfn["name"]
         fns = {fn["name"]: fn for (p, impl, fn) in syn.all_fns(path=pfile)}
         where = "%s:%d" % (pfile, pfn["line"])
         variants = {}
         for a in pm["arms"]:
             if a["pat"]["k"] in ("PWild", "PIdent") or a["guard"] is not None:
-                res.violate(PR, "wildcard-arm", "%s:%d" % (pfile, a["line"]), "wildcard or guarded arm in the type printer: a kind of type can be printed wrongly without notice")
+                res.violate(PR, PRK + "wildcard-arm", "%s:%d" % (pfile, a["line"]), "wildcard or guarded arm in the type printer: a kind of type can be printed wrongly without notice")
                 continue
             variants[a["pat"]["path"]["segs"][1]] = a
-        res.inst(PR, "arms", where, True, "%s" % sorted(variants))
+        res.inst(PR, PRK + "arms", where, True, "%s" % sorted(variants))
         if set(variants) != {"Unit", "Path", "Complex"}:
-            res.violate(PR, "arms", where, "the type printer must have exactly the arms Unit, Path, Complex; found %s" % sorted(variants))
+            res.violate(PR, PRK + "arms", where, "the type printer must have exactly the arms Unit, Path, Complex; found %s" % sorted(variants))
         # Unit
         if "Unit" in variants:
             b = variants["Unit"]["body"]
             root, chain = method_chain(b)
             lit = root["lit"]["v"] if root["k"] == "Lit" and root["lit"]["t"] == "str" else None
             ok = lit is not None and lex_plain(lit) == ["(", ")"] and all(c[1] in ("to_string", "to_owned", "into") for c in chain)
-            res.inst(PR, "unit", "%s:%d" % (pfile, variants["Unit"]["line"]), True, "prints %r" % lit)
+            res.inst(PR, PRK + "unit", "%s:%d" % (pfile, variants["Unit"]["line"]), True, "prints %r" % lit)
             if not ok:
-                res.violate(PR, "unit", "%s:%d" % (pfile, variants["Unit"]["line"]), "the unit type must be printed as `()`; found %s" % unparse(b))
+                res.violate(PR, PRK + "unit", "%s:%d" % (pfile, variants["Unit"]["line"]), "the unit type must be printed as `()`; found %s" % unparse(b))
 
         def path_printer_ok(fname, key):
             fn = fns.get(fname)
@@ -105,16 +108,16 @@ def run_rules(ctx, res):
             binder = a["pat"]["elems"][0].get("name") if a["pat"]["k"] == "PTupleStruct" else None
             if b["k"] == "Call" and b["func"]["k"] == "Path" and len(b["args"]) == 1 and ident_of(b["args"][0]) == binder:
                 path_fn = path_str(b["func"])
-                path_printer_ok(path_fn, "path")
+                path_printer_ok(path_fn, PRK + "path")
             else:
-                res.unanalysable(PR, "path", "%s:%d" % (pfile, a["line"]), "Path arm does not delegate to a path printer with its own payload: %s" % unparse(b))
+                res.unanalysable(PR, PRK + "path", "%s:%d" % (pfile, a["line"]), "Path arm does not delegate to a path printer with its own payload: %s" % unparse(b))
         if "Complex" in variants:
             a = variants["Complex"]
             b = a["body"]
             binder = a["pat"]["elems"][0].get("name") if a["pat"]["k"] == "PTupleStruct" else None
             cfn = fns.get(path_str(b["func"])) if b["k"] == "Call" and b["func"]["k"] == "Path" and len(b["args"]) == 1 and ident_of(b["args"][0]) == binder else None
             if cfn is None:
-                res.unanalysable(PR, "complex", "%s:%d" % (pfile, a["line"]), "Complex arm does not delegate to a generic-type printer with its own payload: %s" % unparse(b))
+                res.unanalysable(PR, PRK + "complex", "%s:%d" % (pfile, a["line"]), "Complex arm does not delegate to a generic-type printer with its own payload: %s" % unparse(b))
             else:
                 cw = "%s:%d" % (pfile, cfn["line"])
                 param = cfn["inputs"][0]["pat"].get("name")
@@ -125,7 +128,7 @@ def run_rules(ctx, res):
                 last = cfn["body"]["stmts"][-1]
                 fm = last["expr"] if last["k"] == "ExprStmt" and last["expr"]["k"] == "Macro" and last["expr"]["name"] == "format" else None
                 if fm is None or not fm["args"] or fm["args"][0]["k"] != "Lit":
-                    res.unanalysable(PR, "complex|template", cw, "the generic-type printer does not end in a format! template")
+                    res.unanalysable(PR, PRK + "complex|template", cw, "the generic-type printer does not end in a format! template")
                 else:
                     segs = tpl.parse_format(fm["args"][0]["lit"]["v"]) or []
                     toks = tpl.lex_segments(segs)
@@ -133,23 +136,29 @@ def run_rules(ctx, res):
                     ok = shape == ["{}", "<", "{}", ">"]
                     callee_ph = toks[0].ph if ok else None
                     args_ph = toks[2].ph if ok else None
-                    res.inst(PR, "complex|template", cw, True, "token shape %s" % shape)
+                    res.inst(PR, PRK + "complex|template", cw, True, "token shape %s" % shape)
                     if not ok:
-                        res.violate(PR, "complex|template", cw, "a generic type must be printed as callee `<` arguments `>`; template `%s` lexes to %s" % (fm["args"][0]["lit"]["v"], shape))
+                        res.violate(PR, PRK + "complex|template", cw, "a generic type must be printed as callee `<` arguments `>`; template `%s` lexes to %s" % (fm["args"][0]["lit"]["v"], shape))
                     else:
                         ce = lets.get(callee_ph)
                         okc = ce is not None and ce["k"] == "Call" and path_str(ce["func"]) == path_fn and unparse(ce["args"][0]).replace(" ", "") == "&%s.callee" % param
-                        res.inst(PR, "complex|callee", cw, True, unparse(ce) if ce else "?")
+                        res.inst(PR, PRK + "complex|callee", cw, True, unparse(ce) if ce else "?")
                         if not okc:
-                            res.violate(PR, "complex|callee", cw, "the callee of a generic type must be printed by the path printer from `.callee`; found `%s`" % (unparse(ce) if ce else None))
+                            res.violate(PR, PRK + "complex|callee", cw, "the callee of a generic type must be printed by the path printer from `.callee`; found `%s`" % (unparse(ce) if ce else None))
                         ae = lets.get(args_ph)
                         jc = join_chain(ae) if ae is not None else None
-                        oka = jc is not None and unparse(jc[0]).replace(" ", "") == "%s.args" % param and ident_of(jc[1]) == pfn["name"] and lex_plain(jc[2]) == [","]
-                        res.inst(PR, "complex|args", cw, True, unparse(ae)[:120] if ae else "?")
+                        oka = jc is not None and unparse(jc[0]).replace(" ", "") == "%s.args" % param and ident_of(jc[1]) in printer_names and lex_plain(jc[2]) == [","]
+                        res.inst(PR, PRK + "complex|args", cw, True, unparse(ae)[:120] if ae else "?")
                         if not oka:
-                            res.violate(PR, "complex|args", cw, "the arguments of a generic type must be printed as all of `.args` in order, each through the type printer itself, joined by `,`; found `%s`" % (unparse(ae)[:160] if ae else None))
+                            res.violate(PR, PRK + "complex|args", cw, "the arguments of a generic type must be printed as all of `.args` in order, each through the type printer itself, joined by `,`; found `%s`" % (unparse(ae)[:160] if ae else None))
     n = check_flatteners(syn, res, FL)
     res.floor("CST list conversions checked", n, 6)
+    return syn
+
+
+def run_rules(ctx, res):
+    PR, FL, SITE, IMM = "R-C13-printer", "R-C13-flatten", "R-C13-site", "R-C13-immut"
+    syn = run_printer_rules(ctx, res)
     # ---- sites
     syn2, efile, ts, consts = load_templates(ctx)
     n_sites = 0
@@ -271,6 +280,16 @@ def run_rules(ctx, res):
                     if tainted(fex.operand(s_["rv"]["a"])) or tainted(fex.operand(s_["rv"]["b"])):
                         f_, l_ = parse_at(s_["span"]["at"])
                         res.violate(SITE, "opaque|%s|bin" % fn.name, "%s:%d" % (f_, l_), "the rendered payload type enters `%s` in the emitter" % s_["rv"]["op"])
+    # the field use sites: the type-definition renderers print a terminal-typed field as the payload type of that very
+    # field and have no other exit (C06's box rule on the same facts)
+    from . import c06
+    from ..report import Result as _R2
+    r06 = _R2("C06", "quick", "other")
+    c06.run_rules(ctx, r06)
+    vb = [v for v in r06.violations if v.rule == "R-C06-box"]
+    res.inst(SITE, "field-use-sites (C06 box rule)", "", True, "%d violations" % len(vb))
+    for v in vb:
+        res.violate(SITE, "field-site|" + v.key, v.where, v.msg)
     res.floor("payload-type values reaching a Display argument in the emitter", n_disp, 3)
     res.floor("get_type look-ups in the emitter", n_lookup, 1)
     for v in res.violations:
